@@ -253,9 +253,11 @@ where
     node: Node<'tree, D>,
     env: &mut Cow<MetaVarEnv<'tree, D>>,
   ) -> Option<Node<'tree, D>> {
+    // a negated rule never contributes bindings: evaluate it on a scratch env
+    let mut scratch = Cow::Borrowed(env.as_ref());
     self
       .not
-      .match_node_with_env(node.clone(), env)
+      .match_node_with_env(node.clone(), &mut scratch)
       .xor(Some(node))
   }
 }
